@@ -163,6 +163,19 @@ def judge_patch(name, patch, expect_props, root, report, expect_inconclusive=Fal
     return ok
 
 
+def _save_report(path, report, partial):
+    """a run restricted to some names updates the stored report instead of replacing it"""
+    if partial and os.path.exists(path):
+        try:
+            old = json.load(open(path))
+            old.update(report)
+            report = old
+        except ValueError:
+            pass
+    with open(path, "w") as f:
+        json.dump(report, f, indent=1, sort_keys=True)
+
+
 def mutants(names):
     from mutants.make_mutants import MUTANTS
 
@@ -177,8 +190,7 @@ def mutants(names):
             ok &= judge_patch(name, patch, [p for p in props.split(",") if p], root, report)
     finally:
         shutil.rmtree(root, ignore_errors=True)
-    with open(os.path.join(HERE, "mutants", "REPORT.json"), "w") as f:
-        json.dump(report, f, indent=1, sort_keys=True)
+    _save_report(os.path.join(HERE, "mutants", "REPORT.json"), report, bool(names))
     print("mutants: %s" % ("OK" if ok else "FAILED"))
     return ok
 
@@ -202,8 +214,7 @@ def seeded(names):
             ok &= judge_patch(name, os.path.join(d, "patch.diff"), [], root, report)
     finally:
         shutil.rmtree(root, ignore_errors=True)
-    with open(os.path.join(HERE, "seeded", "REPORT.json"), "w") as f:
-        json.dump(report, f, indent=1, sort_keys=True)
+    _save_report(os.path.join(HERE, "seeded", "REPORT.json"), report, bool(names))
     print("seeded: %s" % ("OK" if ok else "FAILED"))
     return ok
 
